@@ -69,7 +69,18 @@ pub fn build(
     }
 
     let ui_support = match base_ctx.dynamic_binding_handling {
-        DynamicBindingHandling::Omit => None,
+        DynamicBindingHandling::Omit => {
+            // Build the support code only to report the errors which can't be detected by
+            // the constant pass (e.g. type mismatch of dynamic binding), and discard it.
+            UiSupportCode::build(
+                doc.type_name(),
+                &base_ctx.file_name_rules,
+                &object_tree,
+                &object_code_maps,
+                diagnostics,
+            );
+            None
+        }
         DynamicBindingHandling::Generate => Some(UiSupportCode::build(
             doc.type_name(),
             &base_ctx.file_name_rules,
